@@ -149,7 +149,7 @@ func runC06(t *testing.T, e *worlds.Env, tier string) (bool, any) {
 		protos := gen.All()
 		var cands []*gen.Proto
 		for _, p := range protos {
-			if p.Slow {
+			if p.Slow && p.Name != "quic" {
 				continue
 			}
 			cands = append(cands, p)
